@@ -18,69 +18,82 @@ Proof.
   destruct (flatten_items [] prog mi_empty) as [stmts mi]. cbn [fst snd] in *. subst stmts. reflexivity.
 Qed.
 
-Lemma chain_lets_no_ctx : forall prog pat e,
-    ctx_inv (mi_of prog) -> In (SLet pat e) (stmts_items [] prog) -> find_pattern_module_context (mi_of prog) pat = None.
-Proof.
-  intros prog pat e HI Hin. apply stmts_items_let_pat in Hin. destruct Hin as [n Hn]. subst pat.
-  apply find_pattern_short; auto.
-Qed.
-
-(* every declared function is converted, as statement of the chain, under the module context of its module
-   (or the empty one), and its errors are errors of the program *)
-Lemma fn_body_converted : forall builtins prog e' errs d,
-    no_mod_let prog = true ->
+(* Every statement of the program is converted starting from the empty module context, whatever precedes it (no
+   restriction on the program): a function under its own entry of module_context_map, a `let` under the entry of
+   its own pattern, none = the top level.  This is the repaired Let arm seen from the program. *)
+Lemma statement_context : forall builtins prog e' errs k st,
     convert_program builtins prog = (e', errs) ->
-    In d (fn_decls prog) ->
-    exists cmc locals body' errs',
-      (cmc = d_mod d \/ cmc = [])
-      /\ convert_expr (mi_of prog) (known_of builtins prog) cmc (map (fun p => [p]) (d_params d) :: locals) (d_body d) = (body', errs')
-      /\ incl errs' errs
-      /\ In (SLetRec (d_path d) (ELam (map (fun p => [p]) (d_params d)) body')) (chain_stmts e').
+    nth_error (stmts_items [] prog) k = Some st ->
+    exists locals sub' errs',
+      incl errs' errs /\
+      match st with
+      | SLetRec f x =>
+          convert_expr (mi_of prog) (known_of builtins prog)
+                       (match assoc f (module_context_map (mi_of prog)) with Some c => c | None => [] end)
+                       ([f] :: locals) x = (sub', errs')
+          /\ nth_error (chain_stmts e') k = Some (SLetRec f sub')
+      | SLet pat x =>
+          convert_expr (mi_of prog) (known_of builtins prog)
+                       (match find_pattern_module_context (mi_of prog) pat with Some c => c | None => [] end)
+                       locals x = (sub', errs')
+          /\ nth_error (chain_stmts e') k = Some (SLet pat sub')
+      end.
 Proof.
-  intros builtins prog e' errs d Hno Hc Hd.
-  rewrite convert_program_unfold in Hc.
-  pose proof (flatten_ctx prog Hno) as HI. fold (mi_of prog) in HI.
-  apply decl_stmt in Hd. apply In_nth_error in Hd. destruct Hd as [k Hk].
-  destruct (convert_chain_nth _ _ _ _ _ _ _ _ (fun p e H => chain_lets_no_ctx prog p e HI H) Hc Hk)
-    as [lk [sub' [es [Hi [Hcv Hn]]]]].
-  cbn [convert_expr] in Hcv.
-  set (cmc := match assoc (d_path d) (module_context_map (mi_of prog)) with Some c => c | None => [] end) in *.
-  match type of Hcv with (let (_, _) := ?t in _) = _ => destruct t as [body' eb] eqn:Eb end.
-  inversion Hcv; subst sub' es. clear Hcv.
-  exists cmc, ([d_path d] :: lk), body', eb. split; [|split; [exact Eb|split; [exact Hi|]]].
-  - unfold cmc. destruct (assoc (d_path d) (module_context_map (mi_of prog))) as [c|] eqn:Ea; [|right; reflexivity].
-    left. destruct (HI _ _ Ea) as [n [Hp _]]. unfold d_path in Hp. apply app_inj_tail in Hp. destruct Hp as [Hp _]. symmetry. exact Hp.
-  - eapply nth_error_In. exact Hn.
+  intros builtins prog e' errs k st Hc Hk. rewrite convert_program_unfold in Hc.
+  exact (convert_chain_nth _ _ _ _ _ _ _ _ Hc Hk).
 Qed.
 
-Lemma let_stmt_item : forall it prefix P n b,
-    In (P, n, b) (let_decls_item prefix it) -> In (SLet [[n]] b) (stmts_item prefix it).
+(* ---- module_context_map under mod_lets_apart -------------------------------------------------------------------- *)
+Lemma short_sym : forall x : sym, List.length x = 1 -> exists n, x = [n].
+Proof. intros [|n [|m r]] H; try discriminate. exists n. reflexivity. Qed.
+
+(* a one-segment key with a non-empty context is the name of a module `let` *)
+Lemma mod_let_key : forall prog c n,
+    In (c ++ [n]) (let_keys prog) -> c <> [] -> exists b, In (c, n, b) (mod_let_decls prog).
 Proof.
-  induction it using item_ind'; intros prefix P n0 b0 Hd; cbn [let_decls_item stmts_item] in *; try contradiction.
-  - destruct Hd as [Hd|[]]. inversion Hd; subst. left. reflexivity.
-  - apply in_flat_map in Hd. destruct Hd as [x [Hx Hd]]. apply in_flat_map. exists x. split; auto.
-    rewrite Forall_forall in H. eapply H; eauto.
+  intros prog c n Hin Hc. unfold let_keys in Hin. apply in_map_iff in Hin. destruct Hin as [[[P n'] b] [Hk Hd]].
+  unfold let_key in Hk. cbn [fst snd] in Hk. apply app_inj_tail in Hk. destruct Hk as [HP Hn]. subst P n'.
+  exists b. unfold mod_let_decls. apply filter_In. split; auto. cbn [fst]. destruct c; [contradiction|reflexivity].
 Qed.
 
-Lemma let_body_converted : forall builtins prog e' errs P n b,
-    no_mod_let prog = true ->
-    convert_program builtins prog = (e', errs) ->
-    In (P, n, b) (let_decls prog) ->
-    exists locals body' errs',
-      convert_expr (mi_of prog) (known_of builtins prog) [] locals b = (body', errs')
-      /\ incl errs' errs
-      /\ In (SLet [[n]] body') (chain_stmts e').
+Lemma ctx_short_key : forall prog n c,
+    assoc [n] (module_context_map (mi_of prog)) = Some c -> c <> [] /\ exists b, In (c, n, b) (mod_let_decls prog).
 Proof.
-  intros builtins prog e' errs P n b Hno Hc Hd.
-  rewrite convert_program_unfold in Hc.
-  pose proof (flatten_ctx prog Hno) as HI. fold (mi_of prog) in HI.
-  assert (Hs : In (SLet [[n]] b) (stmts_items [] prog)).
-  { unfold let_decls in Hd. apply in_flat_map in Hd. destruct Hd as [x [Hx Hd]]. apply in_flat_map. exists x. split; auto.
-    eapply let_stmt_item; eauto. }
-  apply In_nth_error in Hs. destruct Hs as [k Hk].
-  destruct (convert_chain_nth _ _ _ _ _ _ _ _ (fun p e H => chain_lets_no_ctx prog p e HI H) Hc Hk)
-    as [lk [sub' [es [Hi [Hcv Hn]]]]].
-  exists lk, sub', es. split; [exact Hcv|split; [exact Hi|]]. eapply nth_error_In. exact Hn.
+  intros prog n c Ha. destruct (flatten_ctx prog _ _ Ha) as [Hc [[n' Hk]|[n' [Hk Hin]]]].
+  - exfalso. change [n] with ([] ++ [n]) in Hk. apply app_inj_tail in Hk. destruct Hk as [Hk _]. symmetry in Hk. contradiction.
+  - inversion Hk; subst n'. split; auto. apply mod_let_key; auto.
+Qed.
+
+(* a name that is bound elsewhere has no entry *)
+Lemma apart_no_ctx : forall prog x,
+    mod_lets_apart prog = true -> List.length x = 1 -> In x (other_binders prog) ->
+    assoc x (module_context_map (mi_of prog)) = None.
+Proof.
+  intros prog x Hap Hl Hin. destruct (short_sym x Hl) as [n Hn]. subst x.
+  destruct (assoc [n] (module_context_map (mi_of prog))) as [c|] eqn:Ha; auto. exfalso.
+  destruct (ctx_short_key _ _ _ Ha) as [_ [b Hb]].
+  unfold mod_lets_apart in Hap. apply andb_true_iff in Hap. destruct Hap as [_ Hap]. rewrite forallb_forall in Hap.
+  specialize (Hap _ Hin). apply negb_true_iff in Hap.
+  assert (Hm : mem [n] (mod_let_names prog) = true).
+  { apply mem_In. unfold mod_let_names. apply in_map_iff. exists (c, n, b). split; auto. }
+  congruence.
+Qed.
+
+Lemma ctx_binders_defined : forall e x, In x (ctx_binders e) -> In x (collect_defined_names e).
+Proof.
+  induction e using expr_ind'; intros y Hy; cbn [ctx_binders collect_defined_names] in *; try contradiction.
+  - apply in_app_or in Hy. apply in_or_app. destruct Hy as [Hy|Hy]; [left; exact Hy|right].
+    apply in_app_or in Hy. apply in_or_app. destruct Hy as [Hy|Hy]; [left; apply IHe; exact Hy|right].
+    destruct e2 as [t|]; cbn [opt_list]; [|contradiction]. eapply H; eauto.
+  - destruct Hy as [Hy|Hy]; [left; exact Hy|right].
+    apply in_app_or in Hy. apply in_or_app. destruct Hy as [Hy|Hy]; [left; apply IHe; exact Hy|right].
+    destruct e2 as [t|]; cbn [opt_list]; [|contradiction]. eapply H; eauto.
+  - apply in_or_app. right. apply IHe. exact Hy.
+  - apply in_app_or in Hy. apply in_or_app. destruct Hy as [Hy|Hy]; [left; apply IHe; exact Hy|right].
+    apply in_flat_map in Hy. destruct Hy as [a [Ha Hy]]. apply in_flat_map. exists a. split; auto.
+    rewrite Forall_forall in H. apply H; auto.
+  - apply in_app_or in Hy. apply in_or_app. destruct Hy as [Hy|Hy]; [left; apply IHe; exact Hy|right].
+    destruct e2 as [t|]; cbn [opt_list]; [|contradiction]. eapply H; eauto.
 Qed.
 
 Lemma src_let_item : forall it prefix P n b, src_item it = true -> In (P, n, b) (let_decls_item prefix it) -> src_expr b = true.
@@ -97,9 +110,131 @@ Proof.
   unfold src_prog in Hs. rewrite forallb_forall in Hs. eapply src_let_item; eauto.
 Qed.
 
+Lemma collect_src_short : forall e x, src_expr e = true -> In x (collect_defined_names e) -> List.length x = 1.
+Proof.
+  induction e using expr_ind'; intros y Hs Hy; cbn [collect_defined_names] in Hy; try contradiction; cbn [src_expr] in Hs.
+  - apply andb_true_iff in Hs. destruct Hs as [Hs H2]. apply andb_true_iff in Hs. destruct Hs as [Hp H1].
+    apply in_app_or in Hy. destruct Hy as [Hy|Hy].
+    + rewrite forallb_forall in Hp. apply Nat.eqb_eq. apply Hp. exact Hy.
+    + apply in_app_or in Hy. destruct Hy as [Hy|Hy]; [apply IHe; auto|].
+      destruct e2 as [t|]; cbn [opt_list] in Hy; [|contradiction]. eapply H; eauto.
+  - apply andb_true_iff in Hs. destruct Hs as [Hs H2]. apply andb_true_iff in Hs. destruct Hs as [Hp H1].
+    destruct Hy as [Hy|Hy]; [subst; apply Nat.eqb_eq; exact Hp|].
+    apply in_app_or in Hy. destruct Hy as [Hy|Hy]; [apply IHe; auto|].
+    destruct e2 as [t|]; cbn [opt_list] in Hy; [|contradiction]. eapply H; eauto.
+  - apply andb_true_iff in Hs. destruct Hs as [Hp H1].
+    apply in_app_or in Hy. destruct Hy as [Hy|Hy].
+    + rewrite forallb_forall in Hp. apply Nat.eqb_eq. apply Hp. exact Hy.
+    + apply IHe; auto.
+  - apply andb_true_iff in Hs. destruct Hs as [H1 H2].
+    apply in_app_or in Hy. destruct Hy as [Hy|Hy]; [apply IHe; auto|].
+    apply in_flat_map in Hy. destruct Hy as [a [Ha Hy]]. rewrite Forall_forall in H. rewrite forallb_forall in H2. eapply H; eauto.
+  - apply andb_true_iff in Hs. destruct Hs as [H1 H2].
+    apply in_app_or in Hy. destruct Hy as [Hy|Hy]; [apply IHe; auto|].
+    destruct e2 as [t|]; cbn [opt_list] in Hy; [|contradiction]. eapply H; eauto.
+Qed.
+
+
+(* no binder inside the body of a declared function / the initialiser of a declared `let` has a context entry *)
+Lemma fn_body_free : forall prog d,
+    mod_lets_apart prog = true -> src_prog prog = true -> In d (fn_decls prog) -> ctx_free (mi_of prog) (d_body d).
+Proof.
+  intros prog d Hap Hsrc Hd x Hx. apply apart_no_ctx; auto.
+  - eapply collect_src_short. eapply src_decl; eauto. apply ctx_binders_defined. exact Hx.
+  - unfold other_binders. apply in_or_app. left. apply in_flat_map. exists d. split; auto. apply in_or_app. right. exact Hx.
+Qed.
+
+Lemma let_body_free : forall prog P n b,
+    mod_lets_apart prog = true -> src_prog prog = true -> In (P, n, b) (let_decls prog) -> ctx_free (mi_of prog) b.
+Proof.
+  intros prog P n b Hap Hsrc Hd x Hx. apply apart_no_ctx; auto.
+  - eapply collect_src_short. eapply src_let; eauto. apply ctx_binders_defined. exact Hx.
+  - unfold other_binders. apply in_or_app. right. apply in_flat_map. exists (P, n, b). split; auto. apply in_or_app. right. exact Hx.
+Qed.
+
+(* every declared function is converted, as statement of the chain, under the module context of its module
+   (or the empty one), and its errors are errors of the program *)
+Lemma fn_body_converted : forall builtins prog e' errs d,
+    mod_lets_apart prog = true ->
+    convert_program builtins prog = (e', errs) ->
+    In d (fn_decls prog) ->
+    exists cmc locals body' errs',
+      (cmc = d_mod d \/ cmc = [])
+      /\ convert_expr (mi_of prog) (known_of builtins prog) cmc (map (fun p => [p]) (d_params d) :: locals) (d_body d) = (body', errs')
+      /\ incl errs' errs
+      /\ In (SLetRec (d_path d) (ELam (map (fun p => [p]) (d_params d)) body')) (chain_stmts e').
+Proof.
+  intros builtins prog e' errs d Hap Hc Hd.
+  rewrite convert_program_unfold in Hc.
+  pose proof Hd as Hst. apply decl_stmt in Hst. apply In_nth_error in Hst. destruct Hst as [k Hk].
+  destruct (convert_chain_nth _ _ _ _ _ _ _ _ Hc Hk) as [lk [sub' [es [Hi [Hcv Hn]]]]].
+  cbn [convert_expr] in Hcv.
+  set (cmc := match assoc (d_path d) (module_context_map (mi_of prog)) with Some c => c | None => [] end) in *.
+  match type of Hcv with (let (_, _) := ?t in _) = _ => destruct t as [body' eb] eqn:Eb end.
+  inversion Hcv; subst sub' es. clear Hcv.
+  exists cmc, ([d_path d] :: lk), body', eb. split; [|split; [exact Eb|split; [exact Hi|]]].
+  - unfold cmc. destruct (assoc (d_path d) (module_context_map (mi_of prog))) as [c|] eqn:Ea; [|right; reflexivity].
+    destruct (flatten_ctx prog _ _ Ea) as [Hne [[n Hp]|[n [Hp _]]]].
+    + left. unfold d_path in Hp. apply app_inj_tail in Hp. destruct Hp as [Hp _]. symmetry. exact Hp.
+    + exfalso. unfold d_path in Hp. change [n] with ([] ++ [n]) in Hp. apply app_inj_tail in Hp. destruct Hp as [Hm Hname].
+      assert (Hnone : assoc (d_path d) (module_context_map (mi_of prog)) = None).
+      { apply apart_no_ctx; auto. unfold d_path. rewrite Hm. reflexivity.
+        unfold other_binders. apply in_or_app. left. apply in_flat_map. exists d. split; auto. apply in_or_app. left.
+        rewrite Hm. cbn [nonempty]. left. unfold d_path. rewrite Hm. reflexivity. }
+      congruence.
+  - eapply nth_error_In. exact Hn.
+Qed.
+
+Lemma let_stmt_item : forall it prefix P n b,
+    In (P, n, b) (let_decls_item prefix it) -> In (SLet [[n]] b) (stmts_item prefix it).
+Proof.
+  induction it using item_ind'; intros prefix P n0 b0 Hd; cbn [let_decls_item stmts_item] in *; try contradiction.
+  - destruct Hd as [Hd|[]]. inversion Hd; subst. left. reflexivity.
+  - apply in_flat_map in Hd. destruct Hd as [x [Hx Hd]]. apply in_flat_map. exists x. split; auto.
+    rewrite Forall_forall in H. eapply H; eauto.
+Qed.
+
+(* every declared `let` is converted, as statement of the chain, under the module context of ITS module (or the
+   empty one): a top-level `let` under the empty context, whatever module `let`s precede it *)
+Lemma let_body_converted : forall builtins prog e' errs P n b,
+    mod_lets_apart prog = true ->
+    convert_program builtins prog = (e', errs) ->
+    In (P, n, b) (let_decls prog) ->
+    exists cmc locals body' errs',
+      (cmc = P \/ cmc = [])
+      /\ convert_expr (mi_of prog) (known_of builtins prog) cmc locals b = (body', errs')
+      /\ incl errs' errs
+      /\ In (SLet [[n]] body') (chain_stmts e').
+Proof.
+  intros builtins prog e' errs P n b Hap Hc Hd.
+  rewrite convert_program_unfold in Hc.
+  assert (Hs : In (SLet [[n]] b) (stmts_items [] prog)).
+  { unfold let_decls in Hd. apply in_flat_map in Hd. destruct Hd as [x [Hx Hd]]. apply in_flat_map. exists x. split; auto.
+    eapply let_stmt_item; eauto. }
+  apply In_nth_error in Hs. destruct Hs as [k Hk].
+  destruct (convert_chain_nth _ _ _ _ _ _ _ _ Hc Hk) as [lk [sub' [es [Hi [Hcv Hn]]]]].
+  cbn [find_pattern_module_context] in Hcv.
+  set (cmc := match match assoc [n] (module_context_map (mi_of prog)) with Some c => Some c | None => None end with
+              | Some c => c | None => [] end) in *.
+  exists cmc, lk, sub', es. split; [|split; [exact Hcv|split; [exact Hi|eapply nth_error_In; exact Hn]]].
+  unfold cmc. destruct (assoc [n] (module_context_map (mi_of prog))) as [c|] eqn:Ea; [|right; reflexivity].
+  left. destruct (ctx_short_key _ _ _ Ea) as [Hne [b' Hb']].
+  destruct (nonempty P) eqn:HP.
+  - assert (Hin : In (P, n, b) (mod_let_decls prog)) by (unfold mod_let_decls; apply filter_In; split; auto).
+    unfold mod_lets_apart in Hap. apply andb_true_iff in Hap. destruct Hap as [Hnd _].
+    apply nodup_syms_NoDup in Hnd. unfold mod_let_names in Hnd.
+    assert (E : (c, n, b') = (P, n, b)) by (eapply NoDup_map_eq; eauto).
+    inversion E. reflexivity.
+  - exfalso.
+    assert (Hnone : assoc [n] (module_context_map (mi_of prog)) = None).
+    { apply apart_no_ctx; auto. unfold other_binders. apply in_or_app. right. apply in_flat_map. exists (P, n, b). split; auto.
+      apply in_or_app. left. cbn [fst snd]. rewrite HP. left. reflexivity. }
+    congruence.
+Qed.
+
 (* a reference at position q of a converted source expression *)
 Lemma ref_converted : forall mi known cmc locals body body' errs q r,
-    ctx_inv mi -> src_expr body = true ->
+    ctx_free mi body -> src_expr body = true ->
     convert_expr mi known cmc locals body = (body', errs) ->
     subexpr_at body q = Some r -> is_ref r ->
     exists s cmc' locals' er,
@@ -117,7 +252,7 @@ Proof.
   destruct (convert_at _ _ _ _ _ _ _ _ _ Hc Hs) as [sub' [er [Hcv [Hs' Hi]]]].
   pose proof (src_subexpr _ _ _ Hsrc Hs) as Hsr.
   set (cmc' := fst (ctx_at mi cmc locals body q)) in *. set (locals' := snd (ctx_at mi cmc locals body q)) in *.
-  assert (Hcm : cmc' = cmc \/ cmc' = []) by (apply ctx_at_src; auto).
+  assert (Hcm : cmc' = cmc \/ cmc' = []) by (apply ctx_at_src; exact HI).
   assert (Hb : forall x, In x (binders_at body q) \/ In x (List.concat locals) -> In x (List.concat locals')).
   { intros x [Hx|Hx]. apply binders_at_locals. exact Hx. apply ctx_at_mono. exact Hx. }
   destruct Hr as [[x Hx]|[p Hp]]; subst r; cbn [convert_expr] in Hcv.
@@ -161,7 +296,7 @@ Proof.
 Qed.
 
 Theorem no_private_route_fn : forall builtins prog e',
-    unique_fns prog = true -> no_mod_let prog = true -> pub_use_safe prog = true -> src_prog prog = true ->
+    unique_fns prog = true -> mod_lets_apart prog = true -> pub_use_safe prog = true -> src_prog prog = true ->
     convert_program builtins prog = (e', []) ->
     forall d, In d (fn_decls prog) ->
     exists body',
@@ -174,7 +309,7 @@ Proof.
   destruct (fn_body_converted _ _ _ _ _ Hno Hc Hd) as [cmc [locals [body' [eb [Hcm [Hcv [Hi Hin]]]]]]].
   apply incl_nil_eq in Hi. subst eb.
   exists body'. split; [exact Hin|]. intros q r Hq Hr.
-  pose proof (flatten_ctx prog Hno) as HI.
+  pose proof (fn_body_free prog d Hno Hsrc Hd) as HI.
   destruct (ref_converted _ _ _ _ _ _ _ _ _ HI (src_decl _ _ Hsrc Hd) Hcv Hq Hr)
     as [s [cmc' [locals' [er [Hcm' [_ [Hs' [Hie Hres]]]]]]]].
   apply incl_nil_eq in Hie. subst er.
@@ -186,31 +321,80 @@ Proof.
 Qed.
 
 Theorem no_private_route_let : forall builtins prog e',
-    unique_fns prog = true -> no_mod_let prog = true -> pub_use_safe prog = true -> src_prog prog = true ->
+    unique_fns prog = true -> mod_lets_apart prog = true -> pub_use_safe prog = true -> src_prog prog = true ->
     convert_program builtins prog = (e', []) ->
     forall P n b, In (P, n, b) (let_decls prog) ->
     exists body',
       In (SLet [[n]] body') (chain_stmts e')
       /\ forall q r, subexpr_at b q = Some r -> is_ref r ->
-           exists s, subexpr_at body' q = Some (EVar s) /\ forall M m, s = M ++ [m] -> ~ private_fn prog M m.
+           exists s, subexpr_at body' q = Some (EVar s) /\ forall M m, s = M ++ [m] -> private_fn prog M m -> inside M P.
 Proof.
   intros builtins prog e' Hu Hno Hs Hsrc Hc P n b Hd.
-  destruct (let_body_converted _ _ _ _ _ _ _ Hno Hc Hd) as [locals [body' [eb [Hcv [Hi Hin]]]]].
+  destruct (let_body_converted _ _ _ _ _ _ _ Hno Hc Hd) as [cmc [locals [body' [eb [Hcm [Hcv [Hi Hin]]]]]]].
   apply incl_nil_eq in Hi. subst eb.
   exists body'. split; [exact Hin|]. intros q r Hq Hr.
-  pose proof (flatten_ctx prog Hno) as HI.
+  pose proof (let_body_free prog P n b Hno Hsrc Hd) as HI.
   destruct (ref_converted _ _ _ _ _ _ _ _ _ HI (src_let _ _ _ _ Hsrc Hd) Hcv Hq Hr)
     as [s [cmc' [locals' [er [Hcm' [_ [Hs' [Hie Hres]]]]]]]].
   apply incl_nil_eq in Hie. subst er.
   exists s. split; [exact Hs'|]. intros M m Hsm Hp.
   assert (Hin' : inside M cmc') by (eapply ref_private_inside; eauto).
   destruct Hp as [HM _].
-  destruct Hcm' as [E|E]; rewrite E in Hin'; apply inside_nil in Hin'; contradiction.
+  destruct Hcm' as [E|E]; rewrite E in Hin'; [|apply inside_nil in Hin'; contradiction].
+  destruct Hcm as [E2|E2]; rewrite E2 in Hin'; [exact Hin'|apply inside_nil in Hin'; contradiction].
+Qed.
+
+(* in particular the initialiser of a TOP-LEVEL `let` never reaches a private member, whatever module `let`s the
+   program has before it (the repaired half of finding F17b) *)
+Corollary no_private_route_top_let : forall builtins prog e',
+    unique_fns prog = true -> mod_lets_apart prog = true -> pub_use_safe prog = true -> src_prog prog = true ->
+    convert_program builtins prog = (e', []) ->
+    forall n b, In ([], n, b) (let_decls prog) ->
+    exists body',
+      In (SLet [[n]] body') (chain_stmts e')
+      /\ forall q r, subexpr_at b q = Some r -> is_ref r ->
+           exists s, subexpr_at body' q = Some (EVar s) /\ forall M m, s = M ++ [m] -> ~ private_fn prog M m.
+Proof.
+  intros builtins prog e' Hu Hno Hs Hsrc Hc n b Hd.
+  destruct (no_private_route_let _ _ _ Hu Hno Hs Hsrc Hc _ _ _ Hd) as [body' [Hin H]].
+  exists body'. split; [exact Hin|]. intros q r Hq Hr. destruct (H q r Hq Hr) as [s [Hs' Hp]].
+  exists s. split; [exact Hs'|]. intros M m Hsm Hpriv. pose proof (Hp M m Hsm Hpriv) as Hi.
+  apply inside_nil in Hi. destruct Hpriv as [HM _]. contradiction.
+Qed.
+
+(* no_mod_let is the crude form of mod_lets_apart *)
+Lemma no_let_item_decls : forall it prefix, no_let_item it = true -> let_decls_item prefix it = [].
+Proof.
+  induction it using item_ind'; intros prefix Hn; cbn [no_let_item let_decls_item] in *; try reflexivity; try discriminate.
+  rewrite forallb_forall in Hn. rewrite Forall_forall in H.
+  induction body as [|x r IHr]; cbn [flat_map]. reflexivity.
+  rewrite (H x (or_introl eq_refl) _ (Hn x (or_introl eq_refl))). cbn [app].
+  apply IHr.
+  - intros y Hy. apply H. right. exact Hy.
+  - intros y Hy. apply Hn. right. exact Hy.
+Qed.
+
+Lemma no_mod_let_names : forall prog, no_mod_let prog = true -> mod_let_decls prog = [].
+Proof.
+  intros prog Hno. unfold mod_let_decls, let_decls, no_mod_let in *. rewrite forallb_forall in Hno.
+  induction prog as [|it r IH]; cbn [flat_map]. reflexivity.
+  rewrite filter_app. rewrite IH by (intros x Hx; apply Hno; right; exact Hx). rewrite app_nil_r.
+  specialize (Hno it (or_introl eq_refl)).
+  destruct it as [pub n ps b|n b|pub n body|pub p t]; cbn [let_decls_item]; try reflexivity.
+  cbn [top_no_mod_let] in Hno. rewrite forallb_forall in Hno.
+  induction body as [|x rb IHb]; cbn [flat_map]. reflexivity.
+  rewrite (no_let_item_decls x _ (Hno x (or_introl eq_refl))). cbn [app]. apply IHb. intros y Hy. apply Hno. right. exact Hy.
+Qed.
+
+Lemma no_mod_let_apart : forall prog, no_mod_let prog = true -> mod_lets_apart prog = true.
+Proof.
+  intros prog Hno. unfold mod_lets_apart, mod_let_names. rewrite (no_mod_let_names prog Hno). cbn [map nodup_syms andb].
+  apply forallb_forall. intros x _. reflexivity.
 Qed.
 
 (* ---- local bindings shadow ------------------------------------------------------------------------------------ *)
 Theorem local_shadows_fn : forall builtins prog e' errs,
-    no_mod_let prog = true -> src_prog prog = true ->
+    mod_lets_apart prog = true -> src_prog prog = true ->
     convert_program builtins prog = (e', errs) ->
     forall d, In d (fn_decls prog) ->
     exists body',
@@ -222,7 +406,7 @@ Proof.
   intros builtins prog e' errs Hno Hsrc Hc d Hd.
   destruct (fn_body_converted _ _ _ _ _ Hno Hc Hd) as [cmc [locals [body' [eb [Hcm [Hcv [Hi Hin]]]]]]].
   exists body'. split; [exact Hin|]. intros q x Hq Hb.
-  pose proof (flatten_ctx prog Hno) as HI.
+  pose proof (fn_body_free prog d Hno Hsrc Hd) as HI.
   destruct (ref_converted _ _ _ _ _ _ _ _ _ HI (src_decl _ _ Hsrc Hd) Hcv Hq (or_introl (ex_intro _ x eq_refl)))
     as [s [cmc' [locals' [er [_ [Hloc [Hs' [_ [_ Hres]]]]]]]]].
   assert (Hbound : is_locally_bound locals' x = true).
@@ -232,30 +416,6 @@ Proof.
 Qed.
 
 (* ---- what a qualified path resolves to ----------------------------------------------------------------------- *)
-Lemma collect_src_short : forall e x, src_expr e = true -> In x (collect_defined_names e) -> List.length x = 1.
-Proof.
-  induction e using expr_ind'; intros y Hs Hy; cbn [collect_defined_names] in Hy; try contradiction; cbn [src_expr] in Hs.
-  - apply andb_true_iff in Hs. destruct Hs as [Hs H2]. apply andb_true_iff in Hs. destruct Hs as [Hp H1].
-    apply in_app_or in Hy. destruct Hy as [Hy|Hy].
-    + rewrite forallb_forall in Hp. apply Nat.eqb_eq. apply Hp. exact Hy.
-    + apply in_app_or in Hy. destruct Hy as [Hy|Hy]; [apply IHe; auto|].
-      destruct e2 as [t|]; cbn [opt_list] in Hy; [|contradiction]. eapply H; eauto.
-  - apply andb_true_iff in Hs. destruct Hs as [Hs H2]. apply andb_true_iff in Hs. destruct Hs as [Hp H1].
-    destruct Hy as [Hy|Hy]; [subst; apply Nat.eqb_eq; exact Hp|].
-    apply in_app_or in Hy. destruct Hy as [Hy|Hy]; [apply IHe; auto|].
-    destruct e2 as [t|]; cbn [opt_list] in Hy; [|contradiction]. eapply H; eauto.
-  - apply andb_true_iff in Hs. destruct Hs as [Hp H1].
-    apply in_app_or in Hy. destruct Hy as [Hy|Hy].
-    + rewrite forallb_forall in Hp. apply Nat.eqb_eq. apply Hp. exact Hy.
-    + apply IHe; auto.
-  - apply andb_true_iff in Hs. destruct Hs as [H1 H2].
-    apply in_app_or in Hy. destruct Hy as [Hy|Hy]; [apply IHe; auto|].
-    apply in_flat_map in Hy. destruct Hy as [a [Ha Hy]]. rewrite Forall_forall in H. rewrite forallb_forall in H2. eapply H; eauto.
-  - apply andb_true_iff in Hs. destruct Hs as [H1 H2].
-    apply in_app_or in Hy. destruct Hy as [Hy|Hy]; [apply IHe; auto|].
-    destruct e2 as [t|]; cbn [opt_list] in Hy; [|contradiction]. eapply H; eauto.
-Qed.
-
 Definition stmt_names (st : stmt) : list sym :=
   match st with SLet pat e => pat ++ collect_defined_names e | SLetRec f e => f :: collect_defined_names e end.
 
@@ -318,7 +478,7 @@ Lemma denoted_ext : forall (P Q : sym -> Prop) cmc segs s,
 Proof. intros P Q cmc segs s H1 H2 H. unfold denoted in *. tauto. Qed.
 
 Theorem unique_fn : forall builtins prog e' errs,
-    no_mod_let prog = true -> src_prog prog = true -> (forall b, In b builtins -> List.length b = 1) ->
+    mod_lets_apart prog = true -> src_prog prog = true -> (forall b, In b builtins -> List.length b = 1) ->
     convert_program builtins prog = (e', errs) ->
     forall d, In d (fn_decls prog) ->
     exists body',
@@ -332,7 +492,7 @@ Proof.
   intros builtins prog e' errs Hno Hsrc Hb Hc d Hd.
   destruct (fn_body_converted _ _ _ _ _ Hno Hc Hd) as [cmc [locals [body' [eb [Hcm [Hcv [Hi Hin]]]]]]].
   exists body'. split; [exact Hin|]. intros q segs Hq.
-  pose proof (flatten_ctx prog Hno) as HI.
+  pose proof (fn_body_free prog d Hno Hsrc Hd) as HI.
   destruct (ref_converted _ _ _ _ _ _ _ _ _ HI (src_decl _ _ Hsrc Hd) Hcv Hq (or_intror (ex_intro _ segs eq_refl)))
     as [s [cmc' [locals' [er [Hcm' [_ [Hs' [_ [Hl Hres]]]]]]]]].
   destruct (convert_qualified_var_denoted _ _ _ _ _ _ Hres) as [t [Hden Hst]].
